@@ -146,4 +146,56 @@ theorem removeFind_typed (L : Nat) (p : List α → Bool) (n : Nat) (i : Int) : 
 theorem removeProg_typed (L : Nat) (p : List α → Bool) (n : Nat) : (removeProg p n).Typed L :=
   removeFind_typed L p n 0
 
+theorem part_typed (L : Nat) (p : List α → Bool) (f : Nat) :
+    (∀ lo hi : Int, (partFwd p f lo hi).Typed L) ∧ (∀ lo hi : Int, (partBwd p f lo hi).Typed L) := by
+  induction f with
+  | zero => exact ⟨fun _ _ => by rw [partFwd]; exact .ret _, fun _ _ => by rw [partBwd]; exact .ret _⟩
+  | succ f ih =>
+    constructor
+    · intro lo hi
+      rw [partFwd]
+      split
+      · exact .ret _
+      · refine .read _ _ (fun x _ => ?_)
+        split
+        · exact ih.1 _ _
+        · exact ih.2 _ _
+    · intro lo hi
+      rw [partBwd]
+      split
+      · exact .ret _
+      · refine .read _ _ (fun x _ => ?_)
+        split
+        · exact .swap _ _ _ (ih.1 _ _)
+        · exact ih.2 _ _
+
+theorem partitionProg_typed (L : Nat) (p : List α → Bool) (n : Nat) : (partitionProg p n).Typed L :=
+  (part_typed L p (n + 1)).1 _ _
+
+theorem uniqueLoop_typed (L : Nat) (eq : List α → List α → Bool) (n : Nat) (d i : Int) : (uniqueLoop eq n d i).Typed L := by
+  induction n generalizing d i with
+  | zero => exact .ret _
+  | succ n ih =>
+    rw [uniqueLoop]
+    refine .read _ _ (fun a _ => .read _ _ (fun b _ => ?_))
+    split
+    · exact ih _ _
+    · exact .assign _ _ _ (ih _ _)
+
+theorem uniqueFind_typed (L : Nat) (eq : List α → List α → Bool) (n : Nat) (i : Int) : (uniqueFind eq n i).Typed L := by
+  induction n generalizing i with
+  | zero => exact .ret _
+  | succ n ih =>
+    rw [uniqueFind]
+    refine .read _ _ (fun a _ => .read _ _ (fun b _ => ?_))
+    split
+    · exact uniqueLoop_typed L eq _ _ _
+    · exact ih _
+
+theorem uniqueProg_typed (L : Nat) (eq : List α → List α → Bool) (n : Nat) : (uniqueProg eq n).Typed L := by
+  unfold uniqueProg
+  split
+  · exact .ret _
+  · exact uniqueFind_typed L eq _ _
+
 end Multi
